@@ -198,6 +198,42 @@ func (n *vfdNet) quiesce(bound time.Duration) bool {
 	return false
 }
 
+// backlog: number of bundles still queued in the echo-broadcast senders of all nodes (white-box read of the
+// real dispatcher queues). The queues outlive the DKG they belong to.
+func (n *vfdNet) backlog() int {
+	n.mu.Lock()
+	nodes := append([]*vfdNode(nil), n.order...)
+	n.mu.Unlock()
+	total := 0
+	for _, nd := range nodes {
+		if nd.closed.Load() {
+			continue
+		}
+		nd.proc.lock.Lock()
+		b := nd.proc.Executions[n.beaconID]
+		nd.proc.lock.Unlock()
+		if eb, ok := b.(*echoBroadcast); ok && eb != nil && eb.dispatcher != nil {
+			for _, s := range eb.dispatcher.senders {
+				total += len(s.newCh)
+			}
+		}
+	}
+	return total
+}
+
+// drain waits until the traffic of the finished epoch is gone: nothing in flight on the bus, no pending gossip
+// retry, nothing queued in any sender. Pacing only; returns false when the bound expired.
+func (n *vfdNet) drain(bound time.Duration) bool {
+	deadline := time.Now().Add(bound)
+	for time.Now().Before(deadline) {
+		if n.quiesce(time.Until(deadline)) && n.backlog() == 0 && n.quiesce(50*time.Millisecond) && n.backlog() == 0 {
+			return true
+		}
+		time.Sleep(5 * time.Millisecond)
+	}
+	return false
+}
+
 func (n *vfdNet) lookup(addr string) *vfdNode {
 	n.mu.Lock()
 	defer n.mu.Unlock()
